@@ -177,8 +177,8 @@ impl Hooks for H {
         // documented divergence: the emulated resolver's symlink budget is
         // larger than the kernel's; everything else about such a call follows from it
         if let (Some(Err(why)), true) = (&exp, rec.outcome.is_ok()) {
-            let links = ctx.out.trace.iter().filter(|e| e.step >= rec.begin_step && e.nr == libc::SYS_readlinkat).count();
-            if why.contains("ELOOP") && links > 20 {
+            let links = ctx.out.trace.iter().filter(|e| e.step >= rec.begin_step && e.nr == libc::SYS_readlinkat && matches!(e.dir.as_ref().map(|d| &d.prov), Some(crate::sup::Prov::Tree(..)) | Some(crate::sup::Prov::TreeUnknown))).count();
+            if why.contains("ELOOP") && links > 40 && links < 128 {
                 fail("symlink-budget-differs", format!("mkdir_all({path:?}) returned a handle although {why} ({links} links followed)"));
                 return;
             }
@@ -203,7 +203,7 @@ impl Hooks for H {
             Outcome::Fd(_) => {
                 match &exp {
                     Some(Ok(_)) if !bad_mode => {}
-                    Some(Err(why)) if why.contains("ELOOP") && !ctx.out.trace.is_empty() && ctx.out.trace.iter().filter(|e| e.step >= rec.begin_step && e.nr == libc::SYS_readlinkat).count() > 20 => {
+                    Some(Err(why)) if why.contains("ELOOP") && !ctx.out.trace.is_empty() && ctx.out.trace.iter().filter(|e| e.step >= rec.begin_step && e.nr == libc::SYS_readlinkat && matches!(e.dir.as_ref().map(|d| &d.prov), Some(crate::sup::Prov::Tree(..)) | Some(crate::sup::Prov::TreeUnknown))).count() > 40 => {
                         fail("symlink-budget-differs", format!("mkdir_all({path:?}) returned a handle although {why}"))
                     }
                     Some(Err(why)) => fail("succeeds-where-it-must-fail", format!("mkdir_all({path:?}) returned a handle although {why}")),
@@ -256,7 +256,7 @@ impl Hooks for H {
                                 fail("handle-is-not-the-path", format!("handle {:?} but the path resolves to {:?}", f.path, ctx.world.lookup(ino).map(|l| l.name.clone())));
                             }
                         }
-                        KRes::Err(libc::ELOOP) if ctx.out.trace.iter().filter(|e| e.step >= rec.begin_step && e.nr == libc::SYS_readlinkat).count() > 20 => {
+                        KRes::Err(libc::ELOOP) if ctx.out.trace.iter().filter(|e| e.step >= rec.begin_step && e.nr == libc::SYS_readlinkat && matches!(e.dir.as_ref().map(|d| &d.prov), Some(crate::sup::Prov::Tree(..)) | Some(crate::sup::Prov::TreeUnknown))).count() > 40 => {
                             fail("symlink-budget-differs", format!("mkdir_all({path:?}) succeeded but the kernel gives ELOOP for the path"))
                         }
                         KRes::Err(e) => fail("path-does-not-resolve-after-success", format!("mkdir_all({path:?}) succeeded but the path now gives {}", sys::errname(e))),
